@@ -216,16 +216,33 @@ func checkC04(R *Run) {
 	// ---- login-gate
 	var authCall *ssa.Call
 	cut := map[Edge]bool{}
+	isAuthenticate := func(c *ssa.Call) bool { return calleeName(&c.Call) == "(*hotline.ClientConn).Authenticate" }
 	factEdges(fn, func(e Edge, f Fact) {
-		if f.Kind == "truth" {
-			if c, ok := f.V.(*ssa.Call); ok && calleeName(&c.Call) == "(*hotline.ClientConn).Authenticate" {
-				authCall = c
-				if f.Holds {
+		for _, pf := range P.expandFact(f, isAuthenticate, 0) {
+			if pf.kind == "truth" {
+				authCall = pf.call
+				if pf.call.Parent() != fn {
+					authCall = nil // inside a helper: argument checks below need the call in the login sequence itself
+					if c, ok := pf.site.(*ssa.Call); ok {
+						_ = c
+					}
+				}
+				if pf.holds {
 					cut[e] = true
 				}
 			}
 		}
 	})
+	if authCall == nil && len(cut) > 0 {
+		// gate recognised through a helper; find the Authenticate call for the argument rules
+		for f2 := range P.reachFuncs(fn) {
+			for _, ci := range callsIn(f2) {
+				if c, ok := ci.(*ssa.Call); ok && isAuthenticate(c) && f2 == fn {
+					authCall = c
+				}
+			}
+		}
+	}
 	if authCall == nil {
 		R.bad("login-gate", fname(fn)+": Authenticate", P.pos(fn.Pos()), "the login sequence no longer branches on ClientConn.Authenticate: the login gate is gone or moved")
 		return
